@@ -182,9 +182,9 @@ class PipeGen:
         self.classes.add("rename")
         return self.emit({"out": self.new_var(), "verb": "rename", "in": var, "map": m})
 
-    def new_col_name(self, t, taken, allow_overwrite=True):
+    def new_col_name(self, t, taken, allow_overwrite=True, allow_group=False):
         names = t.names()
-        group_names = {n for n, c in t.visible if c in t.group}
+        group_names = set() if allow_group else {n for n, c in t.visible if c in t.group}
         pool = [n for n in data.NEW_NAMES if n not in taken and n not in group_names and n != "id"]
         if not allow_overwrite:
             pool = [n for n in pool if n not in names]
@@ -342,7 +342,9 @@ class PipeGen:
             groups = []
         items, taken = [], set()
         for _ in range(k):
-            name = self.new_col_name(t, taken, allow_overwrite=self.chance(3))
+            name = self.new_col_name(t, taken, allow_overwrite=self.chance(3), allow_group=self.chance(2))
+            if any(n == name and c in t.group for n, c in t.visible):
+                self.classes.add("summarize_overwrites_key")
             taken.add(name)
             fam = self.pick(("int", "float", "bool", "int", "float") + (("str", "date") if self.cfg.expr.strings else ()))
             e = eg.gen(fam, self.draw(st.integers(1, max(1, self.cfg.expr.max_depth))), summ=True)
@@ -486,7 +488,14 @@ class PipeGen:
         for n, f in target:
             if have.get(n) == f and self.chance(7):
                 continue
-            e = eg.gen(f, self.draw(st.integers(0, 1)))
+            if have.get(n) in ("int", "float") and f in ("int", "float") and self.chance(5):
+                self.classes.add("union_int_float")
+                continue
+            f_gen = f
+            if f in ("int", "float") and self.chance(2):
+                f_gen = "float" if f == "int" else "int"  # compatible, not equal, column types
+                self.classes.add("union_int_float")
+            e = eg.gen(f_gen, self.draw(st.integers(0, 1)))
             try:
                 evaluate(self.env, t, e, "mutate")
             except (OutOfDomain, RefReject):
@@ -550,7 +559,11 @@ class PipeGen:
             if not verbs:
                 break
             verb = self.pick(verbs)
-            v2 = getattr(self, "v_" + verb)(var)
+            try:
+                v2 = getattr(self, "v_" + verb)(var)
+            except OutOfDomain:
+                self.skipped += 1
+                v2 = None
             if v2 is not None:
                 var = v2
         return var
